@@ -310,11 +310,17 @@ def sub_markers(item, contract, out, assume=False, twin=None):
     """Emit one function (or its signature only when assumed) with contract text spliced in."""
     if contract is not None:
         waived = {l for (f, l) in load_waived() if f == item["path"]}
-        if waived and any(lab in waived for _, lab in contract.spec):
+        all_labs = {lab for _, lab in contract.spec} | {lab for _, _, ls in contract.proofs for _, lab in ls} \
+            | {lab for _, _, ls in contract.loops for _, lab in ls} | {lab for _, _, ls in contract.loopends for _, lab in ls}
+        if waived & all_labs:
             import copy
             contract = copy.copy(contract)
-            contract.spec = [(t, lab) for (t, lab) in contract.spec if lab not in waived]
-            out.waived.extend((item["path"], l) for l in sorted(waived))
+            keep = lambda ls: [(t, lab) for (t, lab) in ls if lab not in waived]
+            contract.spec = keep(contract.spec)
+            contract.proofs = [(w, a, keep(ls)) for (w, a, ls) in contract.proofs]
+            contract.loops = [(fp, k, keep(ls)) for (fp, k, ls) in contract.loops]
+            contract.loopends = [(fp, k, keep(ls)) for (fp, k, ls) in contract.loopends]
+            out.waived.extend((item["path"], l) for l in sorted(waived & all_labs))
     text = item["text"]
     path = item["path"]
     rel = os.path.relpath(item["file"], REPO)
